@@ -38,7 +38,7 @@ NEEDED = ["err:IndexError", "err:ValueError", "err:none", "hz:none", "hz:clamp",
           "nd_in:1", "nd_in:2", "nd_in:3", "lay:c", "lay:s2", "lay:r", "ndim_out:0", "ndim_out:1", "ndim_out:2", "ndim_out:3"]
 
 TIERS = {
-    "quick": {"cfgs": [("cases", "MemSlice_quick")], "consts": 100, "tuple_forms": 1500, "min_cases": 20000},
+    "quick": {"cfgs": [("cases", "MemSlice_quick")], "consts": 60, "tuple_forms": 1000, "min_cases": 15000},
     "thorough": {"cfgs": [("cases", "MemSlice_thorough"), ("cases", "MemSlice_chain3")],
                  "consts": 1500, "tuple_forms": 20000, "min_cases": 150000},
 }
@@ -92,10 +92,10 @@ def run(tier, seed):
     cov = {"tlc": []}
 
     # ------------------------------------------------------------------ model checking
-    nw = max(2, core.NCPU // 3)
+    nw = max(2, core.NCPU // (2 if tier == "quick" else 3))
     jobs = list(T["cfgs"]) + [("refute", "MemSlice_refute")]
     with concurrent.futures.ThreadPoolExecutor(max_workers=len(jobs)) as ex:
-        futs = [(part, cfg, ex.submit(_tlc, cfg, workers=nw, timeout=3000 if tier == "thorough" else 900,
+        futs = [(part, cfg, ex.submit(_tlc, cfg, workers=2 if part == "refute" else nw, timeout=3000 if tier == "thorough" else 900,
                                       deadlock=False, heap="6g" if tier == "thorough" else None)) for part, cfg in jobs]
         crash_probe = ex.submit(core.build_many, [core.BuildSpec("c16probe", CRASH_PROBE, cython_only=True)], core.subdir("c16probe"), 1)
         results = [(part, cfg, f.result()) for part, cfg, f in futs]
